@@ -12,7 +12,8 @@ TRUSTED = ("reference models in vf/ref (bit-serial CRCs, frame/readout/COSEM bui
            "poison returned lists and run twin instances; detection power measured on 140 independently seeded faults + 35 mutants (selftest/RESULTS.md)")
 
 def _c(category, text, note, technique, sec):
-    return dict(category=category, text=text, design_ref=f"DESIGN.md section 4, {sec}", note=note, technique=technique)
+    note = note + "; the workload devices added by the strengthening rounds A-H (buffer containers, bystander objects, digest-colliding pairs, environment rotation, size sweeps, ...) are named in the RULE string of evidence/<id>.json and described in DESIGN.md 8.4"
+    return dict(category=category, text=text, design_ref=f"DESIGN.md section 4, {sec}; status and devices in section 8", note=note, technique=technique)
 
 
 CHECKS = {
@@ -123,7 +124,7 @@ def main() -> None:
             }
         ],
         "checks": checks,
-        "notes": "Exit codes: 0 held on everything observed, 1 with a VIOLATION line, 2 inconclusive (no VIOLATION line). Known findings: KNOWN_FINDINGS.txt (12 defects, all repaired by 'fix:' commits in /repo; no open finding). VERIF_SEED / VERIF_TIER / VERIF_REPO / VERIF_JOBS are honoured. DESIGN.md section 8 records what was found, the false alarms of the machinery that were corrected, and which checks catch which seeded changes.",
+        "notes": "Exit codes: 0 held on everything observed, 1 with a VIOLATION line, 2 inconclusive (no VIOLATION line). Known findings: KNOWN_FINDINGS.txt (14 defects, all repaired by 'fix:' commits in /repo; no open finding). VERIF_SEED / VERIF_TIER / VERIF_REPO / VERIF_JOBS are honoured. DESIGN.md section 8 records what was found, the false alarms of the machinery that were corrected, and which checks catch which seeded changes.",
         "not_applicable": na,
     }
     with open(os.path.join(ROOT, "MANIFEST.json"), "w") as fh:
